@@ -27,7 +27,7 @@ def _t(label):
         _T0[0] = now
 
 
-DBASE = dict(Fix=[], Variant='"python"', Mode='"grammar"', MaxEvents=14, MaxDocs=3, MaxNest=1, EmptyColls=True,
+DBASE = dict(Fix=[], Variant='"python"', Mode='"grammar"', MaxEvents=14, MaxDocs=3, MaxNest=1, EmptyColls=True, CollsAt='"any"',
              Canons=[False], Bests=[2], Widths=[80], Unis=[False], LBs=['n'], Vs=['empty', 'word', 'nlnl'], Ss=['none'],
              SAs=[''], STs=[''], SIs=['tf'], CAs=[''], CTs=[''], CIs=[True], FSs=[False], AAs=[], DXs=[False, True],
              DVs=[''], DTs=[''], EXs=[False, True])
@@ -37,7 +37,12 @@ DCONF = {
                    EXs=[False]),
     'dirs':   dict(DBASE, DXs=[False], DVs=['', '1.1'], DTs=['', 'h1'], FSs=[], MaxDocs=2, MaxEvents=10),
     'canon':  dict(DBASE, Vs=['empty', 'nlnl'], Canons=[True, False], LBs=['rn'], DXs=[False], FSs=[], MaxDocs=3),
+    # document markers as words: roots, keys and values of a root block mapping, items; at the start of the scalar and at fold points
+    'markers': dict(DBASE, EmptyColls=False, MaxDocs=2, MaxEvents=11, Vs=['word', 'dashkey', 'dotsfold'], Widths=[5],
+                    DXs=[False], EXs=[False]),
     # thorough
+    'markers+': dict(DBASE, EmptyColls=False, MaxDocs=2, MaxEvents=11, Vs=['word', 'docsep', 'dashkey', 'dotkey', 'dotsfold'],
+                     Widths=[5, 80], DXs=[False], EXs=[False]),
     'open+':  dict(DBASE, Ss=['none', 'literal', 'folded', 'single'], Vs=['empty', 'word', 'nl', 'nlnl'], MaxDocs=3, EXs=[False]),
     'ends+':  dict(DBASE, Ss=['none', 'literal'], Vs=['empty', 'nlnl'], MaxDocs=3),
     'roots+': dict(DBASE, Vs=['empty', 'word', 'multiline', 'docsep'], Ss=['none', 'double'], SAs=['', 'a1'], STs=['', 'local', 'core'],
@@ -47,7 +52,7 @@ DCONF = {
     'four+':  dict(DBASE, Vs=['empty', 'nlnl'], MaxDocs=4, MaxEvents=18, FSs=[], EXs=[False]),
     'canon+': dict(DBASE, Canons=[True, False], LBs=['rn', 'r'], MaxDocs=3, DXs=[False], FSs=[]),
 }
-DTIERS = {'quick': ['open', 'roots', 'dirs', 'canon'], 'thorough': ['open+', 'ends+', 'roots+', 'dirs+', 'dirs3+', 'four+', 'canon+']}
+DTIERS = {'quick': ['open', 'roots', 'dirs', 'canon', 'markers'], 'thorough': ['open+', 'ends+', 'roots+', 'dirs+', 'dirs3+', 'four+', 'canon+', 'markers+']}
 KEEP = r'outcome \|-> "done"'
 EMIT_PAIRS = [('python', 'Dumper', 'python', 'Loader'), ('python', 'Dumper', 'libyaml', 'CLoader'),
               ('libyaml', 'CDumper', 'libyaml', 'CLoader'), ('libyaml', 'CDumper', 'python', 'Loader')]
